@@ -166,6 +166,15 @@ func TestC05Histories(t *testing.T) {
 		// prelude that makes valid pipelines likely: a formatter and a sink exist
 		ops := []model.Op{{K: "regnode", N: "c", NT: 2, CloseErr: rapid.Bool().Draw(t, "cCloseErr"), CloseKind: rapid.IntRange(0, 2).Draw(t, "cCloseKind")}, {K: "regnode", N: "d", NT: 3, Shape: rapid.IntRange(0, 3).Draw(t, "dShape")}}
 		ops = append(ops, rapid.SliceOfN(opGen, 1, maxOps).Draw(t, "ops")...)
+		ops = model.Maintain(t, ops, func(id string) int {
+			switch id {
+			case "c":
+				return 2
+			case "d", "d ":
+				return 3
+			}
+			return 1
+		}, "d")
 		c := model.NewChecker()
 		okPipes, failedAfter := 0, 0
 		for i, op := range ops {
